@@ -556,8 +556,26 @@ fn part_d(a: &Args, shared: &SharedReport, th: bool) {
                     if u_sym > seen.len() || (!got_plain.iter().all(|x| *x) && u_sym > u_plain) {
                         r.violation("c10:symmetry-more-states", format!("unique_state_count with symmetry = {u_sym} > without = {u_plain} on {:?}", m), rv.clone());
                     }
+                    // simulation under the same reduction: its reported paths must be real executions too
+                    let mut sim_discs = Vec::new();
+                    if relcode % 4 == 0 && seen.len() >= 2 {
+                        drop(r);
+                        for seed in 0..(if th { 4u64 } else { 2u64 }) {
+                            let c = m.clone().checker().symmetry_fn(pm_rep).target_state_count(40).spawn_simulation(seed, UniformChooser).join();
+                            match std::panic::catch_unwind(std::panic::AssertUnwindSafe(|| c.discoveries())) {
+                                Ok(d) => sim_discs.push(d),
+                                Err(_) => {
+                                    let mut r = shared.lock().unwrap();
+                                    r.violation("c10:symmetry-path-not-real", format!("simulation with symmetry (seed {seed}): discoveries() panicked while rebuilding a reported path, on {:?}", m), rv.clone());
+                                }
+                            }
+                        }
+                        r = shared.lock().unwrap();
+                        r.evaluations += sim_discs.len() as u64;
+                        r.traces += sim_discs.len() as u64;
+                    }
                     // reported paths are real executions of the original model
-                    for (name, path) in d_sym.iter() {
+                    for (name, path) in d_sym.iter().chain(sim_discs.iter().flat_map(|d| d.iter())) {
                         let i = names.iter().position(|n| n == name).unwrap();
                         let v = path.clone().into_vec();
                         let mut ok = m.init_states().contains(&v[0].0);
